@@ -1985,7 +1985,9 @@ impl XmlDocumentTypeDeclaration {
                             declaration.borrow_mut().push_child(entity);
                         }
                         parser::DeclarationEntity::ParameterEntity(_) => {
-                            unimplemented!("Not support parameter entity reference.")
+                            return Err(error::Error::InvalidData(
+                                "parameter entity declaration is not supported".to_string(),
+                            ));
                         }
                     },
                     parser::DeclarationMarkup::Notation(v) => {
@@ -1997,8 +1999,11 @@ impl XmlDocumentTypeDeclaration {
                         declaration.borrow_mut().push_child(pi);
                     }
                 },
-                parser::InternalSubset::ParameterEntityReference(_) => {
-                    unimplemented!("Not support parameter entity reference.")
+                parser::InternalSubset::ParameterEntityReference(v) => {
+                    return Err(error::Error::InvalidData(format!(
+                        "parameter entity reference '%{};' is not supported",
+                        v
+                    )));
                 }
                 parser::InternalSubset::Whitespace(_) => {
                     // drop
@@ -4305,8 +4310,11 @@ fn entity_value_from_name(
                 let v = entity_value_from_name(v, context, in_attribute)?;
                 parsed.push_str(v.as_str());
             }
-            XmlEntityValue::Parameter(_) => {
-                unimplemented!("Not support parameter entity reference.")
+            XmlEntityValue::Parameter(v) => {
+                return Err(error::Error::InvalidData(format!(
+                    "parameter entity reference '%{};' is not supported",
+                    v
+                )));
             }
             XmlEntityValue::Text(v) if in_attribute => parsed.push_str(normalize_ws(v).as_str()),
             XmlEntityValue::Text(v) => parsed.push_str(v),
